@@ -800,3 +800,62 @@ Proof. split; reflexivity. Qed.
 Example ex_nonmember_blames :
   member ex_ty ex_nonmember = false /\ check ex_ty ex_nonmember = Err (Blame Pos).
 Proof. split; reflexivity. Qed.
+
+(* ------------------------------------------------------------------ the specification does not
+   depend on field order: [member] is invariant under [dv_equiv] *)
+
+Lemma forallb_perm {A} (f : A -> bool) l l' : Permutation l l' -> forallb f l = forallb f l'.
+Proof.
+  induction 1 as [|x l l' _ IH|x y l|l l' l'' _ IH1 _ IH2]; cbn; auto.
+  - now rewrite IH.
+  - destruct (f x), (f y); auto.
+  - congruence.
+Qed.
+
+Lemma forallb_Forall2 {A B} (R : A -> B -> Prop) (f : A -> bool) (g : B -> bool) l l' :
+  Forall2 R l l' -> (forall a b, R a b -> f a = g b) -> forallb f l = forallb g l'.
+Proof.
+  intros H Hfg. induction H as [|a b l l' Hab _ IH]; cbn; auto. now rewrite (Hfg a b Hab), IH.
+Qed.
+
+Lemma Forall2_impl_In {A B} (R S : A -> B -> Prop) l l' :
+  Forall2 R l l' -> Forall (fun a => forall b, R a b -> S a b) l -> Forall2 S l l'.
+Proof.
+  induction 1 as [|a b l l' Hab _ IH]; intros HF; constructor; inversion HF; subst; auto.
+Qed.
+
+Theorem member_equiv : forall T v1 v2, dv_equiv v1 v2 -> member T v1 = member T v2.
+Proof.
+  induction T as [| | | |t IH|a b _ _|rows tail IH|fl t IH|rows tail IH|x k t _|x|n] using ty_ind';
+    intros v1 v2 He; try reflexivity; try (inversion He; subst; reflexivity).
+  - (* Array *)
+    inversion He; subst; try reflexivity. cbn.
+    eapply forallb_Forall2; eauto.
+  - (* Record *)
+    inversion He as [| | | | | | |l1 l2 l2' Hperm HF]; subst; try reflexivity.
+    rewrite !member_rec.
+    assert (Hk : forall k, has_key k l1 = has_key k l2).
+    { intros k. rewrite (has_key_perm k l2 l2' Hperm). eapply has_key_Forall2; eauto. }
+    f_equal.
+    + apply forallb_ext'. intros r. apply Hk.
+    + rewrite (forallb_perm _ l2 l2' Hperm).
+      eapply forallb_Forall2; [exact HF|].
+      intros f1 f2 [Hfst Hsnd]. cbn beta. rewrite Hfst.
+      destruct (lookup (fst f2) rows) as [t|] eqn:El; auto.
+      (* the declared type of that field *)
+      clear -IH El Hsnd. induction IH as [|[k' t'] rows Ht _ IHrows]; cbn in El; [discriminate|].
+      destruct (String.eqb (fst f2) k').
+      * inversion El; subst. apply Ht. exact Hsnd.
+      * auto.
+  - (* Dict *)
+    inversion He as [| | | | | | |l1 l2 l2' Hperm HF]; subst; try reflexivity. cbn.
+    rewrite (forallb_perm _ l2 l2' Hperm).
+    eapply forallb_Forall2; [exact HF|]. intros f1 f2 [_ Hsnd]. apply IH. exact Hsnd.
+  - (* Enum *)
+    inversion He; subst; try reflexivity.
+    + rewrite !member_enum.
+      induction IH as [|[k [t'|]] rows Ht _ IHrows]; cbn; auto.
+      * unfold alt_matches at 1 3. cbn. rewrite IHrows.
+        cbn in Ht. now rewrite (Ht a b) by assumption.
+      * unfold alt_matches at 1 3. cbn. now rewrite IHrows.
+Qed.
